@@ -252,7 +252,7 @@ func (g *Gen) zeroSliceCells(st *State, arr string, et types.Type) {
 					g.sc.emit("(assert (forall ((r Ref)) (! (= (select %s r) (ite (= (rb r) (rb %s)) (select %s r) (select %s r))) :pattern ((select %s r)))))", n, arr, n, cur, n)
 					g.sc.emit("(assert (forall ((i Int)) (! (= (select %s %s) %s) :pattern ((select %s %s)))))", n, fmt.Sprintf("(fld %s %d)", path("(idx "+arr+" i)"), ii), g.sc.sorts.zero(ft), n, fmt.Sprintf("(fld %s %d)", path("(idx "+arr+" i)"), ii))
 					st.mem[tag] = n
-					g.sc.oldEq[n] = g.sc.oldBase(cur)
+					g.sc.setStep(n, cur, fmt.Sprintf("(rb %s)", arr))
 				}
 			}
 		default:
@@ -265,7 +265,7 @@ func (g *Gen) zeroSliceCells(st *State, arr string, et types.Type) {
 			g.sc.emit("(assert (forall ((r Ref)) (! (=> (not (= (rb r) (rb %s))) (= (select %s r) (select %s r))) :pattern ((select %s r)))))", arr, n, cur, n)
 			g.sc.emit("(assert (forall ((i Int)) (! (= (select %s %s) %s) :pattern ((select %s %s)))))", n, path("(idx "+arr+" i)"), g.sc.sorts.zero(t), n, path("(idx "+arr+" i)"))
 			st.mem[tag] = n
-			g.sc.oldEq[n] = g.sc.oldBase(cur)
+			g.sc.setStep(n, cur, fmt.Sprintf("(rb %s)", arr))
 		}
 	}
 	leafZero(et, func(b string) string { return b })
